@@ -189,6 +189,16 @@ pub enum Spelling {
     AbsoluteSlashDot,
     RelativeSlash,
     RelativeSlashDot,
+    /// The same directory spelled with noise before its last component: `p//last` (kind 0),
+    /// `p/./last` (kind 1) or the detour `p/../p/last` (kind 2; `p` is a plain directory for every
+    /// base the generators draw). Falls back to the plain spelling when the text has no such place.
+    Odd { absolute: bool, kind: u8 },
+}
+
+impl Spelling {
+    pub fn is_absolute(&self) -> bool {
+        matches!(self, Spelling::Absolute | Spelling::AbsoluteSlash | Spelling::AbsoluteSlashDot | Spelling::Odd { absolute: true, .. })
+    }
 }
 
 #[derive(Serialize, Deserialize, Clone, Debug, PartialEq, Eq)]
